@@ -17,7 +17,11 @@
                                                          BlockEvaluator.TransactionGroup
         ETX    = (sender authaddr rekeyTo group body preOk applyOk)
         OBS    = (ok ((addr authAddr)...)) | (err class index)   (AuthAddr left behind)
-        ORIG   = () | (gid (body...))   the committed group the case was mutated from *)
+        ORIG   = () | (gid (body...))   the committed group the case was mutated from
+     (vc PARAMS (TX...) SIGTAB PQTAB HTAB OBSV validate maxGroup ((addr authAddr)...) feesOk (ETX...) OBSE)
+        the SAME group through verify.TxnGroup (OBSV) and BlockEvaluator.TransactionGroup (OBSE);
+        the oracle is evaluated on the COMPOSITION: accepted by both => every member is
+        authorised by the CURRENT authorizer of its sender in the ledger state *)
 From Coq Require Import String Ascii NArith ZArith List Bool.
 Import ListNotations.
 From Verif.lib Require Import Term.
@@ -218,8 +222,47 @@ Fixpoint auth_chain_ok (st : astate) (l : list etx) : bool :=
               auth_chain_ok (apply_rekey st t) r
   end.
 
+(* declarative oracle of the composition (C28_only_current_authorizer): member by member,
+   exactly one category and authorised by the current authorizer of the sender, where "current"
+   is the ledger's AuthAddr updated by the rekeys of the earlier members *)
+Fixpoint compose_ok (sig_ok : bytes -> bytes -> bytes -> bool) (pq_ok : bytes -> bytes -> bytes -> bytes -> bool)
+         (H : bytes -> bytes) (st : astate) (l : list stxn) (g : list etx) : bool :=
+  match l, g with
+  | [], [] => true
+  | s :: l', t :: g' =>
+      accept_ok_b sig_ok pq_ok H (current_authorizer st (t_sender s)) s &&
+      compose_ok sig_ok pq_ok H (apply_rekey st t) l' g'
+  | _, _ => false
+  end.
+
+(* the two views describe the same signed transactions *)
+Definition views_agree (l : list stxn) (g : list etx) : bool :=
+  list_eqb beqb (map t_sender l) (map e_sender g) && list_eqb beqb (map t_auth l) (map e_auth g) &&
+  list_eqb beqb (map (fun s => g_grp (t_gtx s)) l) (map (fun t => g_grp (e_gtx t)) g) &&
+  list_eqb beqb (map (fun s => g_body (t_gtx s)) l) (map (fun t => g_body (e_gtx t)) g).
+
 Definition check (t : term) : term :=
   match t with
+  | TL [TS "vc"; ps; TL txs; TL st; TL pt; TL ht; obsv; v; mg; TL ast; fo; TL etxs; obse] =>
+      match dec_params ps, map_opt dec_stxn txs, map_opt dec_sigrow st, map_opt dec_pqrow pt, map_opt dec_hrow ht with
+      | Some p, Some l, Some st, Some pt, Some ht =>
+          match as_bool v, as_N mg, map_opt dec_st ast, as_bool fo, map_opt dec_etx etxs with
+          | Some v, Some mg, Some ast, Some fo, Some g =>
+              if negb (tables_complete st pt l && views_agree l g) then v_parse else
+              let sig_ok := sig_of st in
+              let pq_ok := pq_of pt in
+              let H := h_of ht in
+              let mv := t_vres (verify_group sig_ok pq_ok H p l) in
+              let c := mkTg v mg ast fo g ht obse None in
+              let me := tg_model_obs c in
+              let both := obs_ok obsv && tg_accepted obse && v in
+              let spec := negb both || compose_ok sig_ok pq_ok H ast l g in
+              verdict spec (term_eqb obsv mv && term_eqb obse me) (existsb has_any_sig l)
+                      (TL [mv; me])
+          | _, _, _, _, _ => v_parse
+          end
+      | _, _, _, _, _ => v_parse
+      end
   | TL [TS "vg"; ps; TL txs; TL st; TL pt; TL ht; obs] =>
       match dec_params ps, map_opt dec_stxn txs, map_opt dec_sigrow st, map_opt dec_pqrow pt, map_opt dec_hrow ht with
       | Some p, Some l, Some st, Some pt, Some ht =>
